@@ -772,7 +772,9 @@ Proof.
     assert (Hsplit' : normal_adds pre = (x ++ a :: y) ++ b :: z).
     { rewrite Hsplit. rewrite <- app_assoc. reflexivity. }
     assert (E : filter (fun j => mem_n j (normal_adds pre)) (takes pre) = x ++ a :: y).
-    { eapply nodup_split_unique; [rewrite <- F'; exact Hnd|]. rewrite <- F'. exact Hsplit'. }
+    { apply (nodup_split_unique b _ (map fst rd') _ z).
+      - pose proof Hnd as Hnd2. rewrite F' in Hnd2. exact Hnd2.
+      - etransitivity; [symmetry; exact F'|exact Hsplit']. }
     apply (in_filter_in (fun j => mem_n j (normal_adds pre))). rewrite E. apply in_or_app. right. left. reflexivity.
 Qed.
 
